@@ -501,10 +501,13 @@ pub fn run(sc: &Scenario, stats: &mut Stats) {
 fn rand_kind(r: &mut Rng, allow_stream: bool) -> Kind {
     let step = crate::buffer_step();
     match r.below(14) {
-        0..=4 => Kind::Plain(match r.below(4) {
+        0..=4 => Kind::Plain(match r.below(5) {
             0 => 0,
             1 => r.range(0, 30),
             2 => (step + r.range(0, 8)).saturating_sub(60),
+            // a call that needs many growth steps (and stays far below the limit)
+            // (production constants only: with a lowered limit a burst of such calls would legitimately overflow)
+            3 if crate::buffer_max() >= 1 << 20 => r.range(17 * step, 40 * step),
             _ => r.range(0, 3 * step).min(crate::buffer_max() / 4),
         }),
         5 | 6 => Kind::Oneway,
@@ -538,7 +541,14 @@ fn rand_steps(r: &mut Rng, conns: &[ConnScript], whole_frames: bool, faults: &[(
                 if connected[c] && left[c] > 0 {
                     let k = if r.chance(1, 2) { 1 } else { r.range(1, left[c]) };
                     left[c] -= k;
-                    let extra = if whole_frames || left[c] == 0 || r.chance(2, 3) { 0 } else { r.range(1, 40) };
+                    // (the part of the following frame that is delivered with this burst: a few bytes, or most of a large call)
+                    let extra = if whole_frames || left[c] == 0 || r.chance(2, 3) {
+                        0
+                    } else if r.chance(1, 2) {
+                        r.range(1, 40)
+                    } else {
+                        r.range(1, 36 * crate::buffer_step())
+                    };
                     steps.push(Step::Send { c, frames: k, extra });
                 }
             }
